@@ -9,6 +9,8 @@ CFG = {'module': 'Dnp3.Props.C03',
               'nothing_invented',
               'event_buffer_capacity',
               'overflow_reported',
+              'overflow_flag_interval',
+              'overflow_bit_interval',
               'event_ids_increase',
               'event_is_recorded_live_in_order',
               'class_report_in_configured_variation',
